@@ -14,8 +14,8 @@ RUN_MOD = "C01.RunTok"        # extends C01.Run (shared with C02/C03) by session
 MODEL_TARGETS = ["C01/Run.vo", "C01/RunTok.vo"]
 PROOF_TARGETS = ["C01/Basics.vo", "C01/Lemmas.vo", "C01/LemmasFact.vo", "C01/LemmasTable.vo", "C01/FactList.vo", "C01/FactExp.vo",
                  "C01/FactProps.vo", "C01/FactAll.vo", "C01/FactSmart1.vo", "C01/FactSmart2.vo", "C01/FactSmart3.vo", "C01/FactSmart4.vo",
-                 "C01/FactFuel.vo", "C01/LemmasTop.vo"]
-PROPS = ["C01/Props.v"]
+                 "C01/FactFuel.vo", "C01/LemmasTop.vo", "C01/LemmasTok.vo"]
+PROPS = ["C01/Props.v", "C01/PropsTok.v"]
 ALLOWED_AXIOMS = []
 IMPL_TIMEOUT = 20.0
 COQ_SHARD = 40
@@ -42,6 +42,13 @@ ASSUMPTIONS = ["grammars use plain productions (templates are C05's subject); ke
 MODELLED = ("ak/llparser.py: LLParser.__init__ name assertions, _create_productions (plain), _factorize_productions and helpers "
             "incl. the smart undo and their assertions, _get_nullables, _calc_first_sets, _calc_follow_sets, _make_llone_table, "
             "_verify_grammar_structure_part2, the main loop of parse incl. suffix splicing and roll-back (coq/LLP/*.v)")
+
+
+def gen_consts(repo):
+    """coq/C01/RunTok.v and the end-to-end theorems import the tokenizer model coq/C04/Model.v, which needs the constants
+    read from the current source by C04's extractor (fail closed there)"""
+    from harness.props import c04
+    return c04.gen_consts(repo)
 
 
 def _mutate_for_c01(rng, g):
@@ -128,6 +135,11 @@ def gen_cases(rng, tier):
         if tier == "thorough" or i % 10 == 0:
             c["diag"] = True      # also compare prods_map / _suffix_symbols themselves
         cases.append(c)
+    n_tok, n_plain = (1500, 700) if tier == "thorough" else (90, 40)
+    for i in range(n_tok):
+        cases.append(_gen_tok_session(rng))
+    for i in range(n_plain):
+        cases.append(_gen_plain_session(rng, i))
     return cases
 
 
@@ -143,6 +155,10 @@ def search_cases(rng, tier):
             if rng.random() < 0.6:
                 g = _mutate_for_c01(rng, g)
         cases.append({"g": g, "inputs": L.gen_inputs(rng, g, 12)})
+    for i in range(n // 3):
+        cases.append(_gen_tok_session(rng))
+    for i in range(n // 6):
+        cases.append(_gen_plain_session(rng, i))
     return cases
 
 
@@ -385,12 +401,6 @@ def _render(rng, info, items):
     out, full = [], []
     need_nl = False
 
-    def ws(choices):
-        s = rng.choice(choices)
-        if not space_skipped and s.strip("\n"):
-            raise AssertionError("white space token in a text whose white space is not skipped")
-        return s
-
     def separator(prev, nxt, first):
         nonlocal need_nl
         pieces = []
@@ -558,10 +568,9 @@ def _gen_tok_session(rng):
         text, full = _render(rng, info, items)
         toks = [t for t in full if t[0] not in set(info["skipset"])]
         if lexerr:
-            cut = rng.randint(0, len(text))
-            # a character no pattern matches; not inside a comment / string: put it on a line of its own
-            text = text[:cut].rsplit("\n", 1)[0] + "\n" + rng.choice(["@", "é", "$", "~"]) + "\n" + text[cut:] if False else \
-                text + "\n" + rng.choice(["@", "é", "$", "~"]) + rng.choice(["", " a", "\n"])
+            # a character no pattern matches, on a line of its own (not inside a comment or a string)
+            bad = rng.choice(["@", "é", "$", "~"])
+            text = (bad + "\n" + text) if rng.random() < 0.3 else (text + "\n" + bad + rng.choice(["", " a", "\n"]))
             toks = None
         texts.append({"text": text, "toks": toks})
         return len(texts) - 1
@@ -719,7 +728,15 @@ def _c_pat(kind, arg):
     raise ValueError(kind)
 
 
-def _coq_session(case):
+def _c_sx(x):
+    if isinstance(x, bool):
+        return "SZ 1" if x else "SZ 0"
+    if isinstance(x, int):
+        return f"SZ {SX.cZ(x)}"
+    return "SL [" + "; ".join(_c_sx(e) for e in x) + "]"
+
+
+def _coq_session(case, obs):
     g = case["g"]
     cfg = case["cfg"]
     ug = SX.clist(
@@ -745,7 +762,7 @@ def _coq_session(case):
     else:
         second = "(@None (bool * list Z * list (nat * option (list Z))))"
     return (f"Session {tk} {ug} {terms} {SX.cbool(g['smart'])} {SX.cstr(g['start'])} {L.FUEL}%nat {texts} "
-            f"{_c_calls(case['calls'])} {second}")
+            f"{_c_calls(case['calls'])} {second} ({_c_sx(_observation_session(case, obs))})")
 
 
 def _sx_results(res):
@@ -753,8 +770,15 @@ def _sx_results(res):
 
 
 def _expected_session(case, obs):
+    # the comparison with _observation_session(case, obs) is made inside Coq (C01/RunTok.v run): () = identical
+    return "()"
+
+
+def _observation_session(case, obs):
+    """the canonical observation (nested lists of ints) of what the implementation did, plus the tokens of every text as
+    the generator knows them"""
     if obs["ctor"][0] == "err":
-        return SX.dumps(SX.err(obs["ctor"][1]))
+        return SX.err(obs["ctor"][1])
     g = case["g"]
     hyps = not py_fact_problems(g["prods"], g["start"], obs["fg"], obs["sfxs"], obs["terminals"])
     # the tokens of every text as the GENERATOR knows them (the model tokenises the text itself)
@@ -764,7 +788,7 @@ def _expected_session(case, obs):
     if obs.get("second"):
         o2 = obs["second"]
         second = SX.err(o2["ctor"][1]) if o2["ctor"][0] == "err" else [0, o2["amb"], _sx_results(o2["res"])]
-    return SX.dumps([0, obs["amb"], hyps, toks, _sx_results(obs["res"]), second])
+    return [0, obs["amb"], hyps, toks, _sx_results(obs["res"]), second]
 
 
 def _oracle_session(case, obs):
@@ -820,17 +844,17 @@ def _shrink_session(case):
                 g2["prods"] = [list(x) for x in g["prods"]]
                 g2["prods"][i] = [nt, alts[:j] + alts[j + 1:]]
                 yield dict(case, g=g2)
-    cfg = case["cfg"]
-    if cfg:
-        for key in ("kw", "syn"):
-            for j in range(len(cfg[key])):
-                c2 = dict(cfg)
-                c2[key] = cfg[key][:j] + cfg[key][j + 1:]
-                yield dict(case, cfg=c2)
+    # the tokenizer configuration is never shrunk: the expected tokens of the texts depend on it
 
 
 
 def kind(case):
+    if _is_session(case):
+        cfg = case["cfg"]
+        if cfg is None:
+            return f"session plain second={int(bool(case.get('second')))}"
+        return (f"session text syn={int(bool(cfg['syn']))} kw={int(bool(cfg['kw']))} "
+                f"skip={'default' if cfg['skip'] is None else 'explicit'} second={int(bool(case.get('second')))}")
     g = case["g"]
     prods = dict(g["prods"])
     has_prefix = any(a and b and a[0] == b[0] for alts in prods.values() for a, b in zip(alts, alts[1:]))
@@ -841,6 +865,8 @@ def kind(case):
 # ------------------------------------------------------------------ implementation side
 def impl_run(case):
     """L.impl_run + the factorized grammar (prods_map, _suffix_symbols) of the constructed parser"""
+    if _is_session(case):
+        return _impl_session(case)
     from ak import llparser
     g = case["g"]
     prods = {nt: [tuple(a) if a else None for a in alts] for nt, alts in g["prods"]}
@@ -934,13 +960,17 @@ def _diag(case):
 
 
 def coq_case(case, obs):
-    # "Grammar ..." -> "GrammarV <diag> ..."
+    if _is_session(case):
+        return _coq_session(case, obs)
+    # "Grammar ..." -> "Old (GrammarV <diag> ...)"
     base = L.coq_case(case, obs)
     assert base.startswith("Grammar ")
-    return "GrammarV " + SX.cbool(_diag(case)) + base[len("Grammar"):]
+    return "Old (GrammarV " + SX.cbool(_diag(case)) + base[len("Grammar"):] + ")"
 
 
 def expected_sx(case, obs):
+    if _is_session(case):
+        return _expected_session(case, obs)
     if obs["ctor"][0] == "err":
         return SX.dumps(SX.err(obs["ctor"][1]))
     res = []
@@ -965,6 +995,8 @@ def oracle(case, obs):
     out = []
     if obs["ctor"][0] != "ok":
         return out
+    if _is_session(case):
+        return _dedup(_oracle_session(case, obs))
     g = case["g"]
     prods = {nt: alts for nt, alts in g["prods"]}
     # a user grammar that mentions a reserved helper name is the known finding, anything else is new
@@ -979,6 +1011,10 @@ def oracle(case, obs):
         if probs:
             out.append(("factorization-invalid", f"grammar {g['prods']} smart={g['smart']}: prods_map {[(s, [r[1] for r in rr]) for s, rr in obs['fg']]} "
                         f"suffix symbols {obs['sfxs']}: " + "; ".join(probs[:3])))
+    return _dedup(out)
+
+
+def _dedup(out):
     # at most one report per signature
     seen, res = set(), []
     for sig, msg in out:
@@ -991,6 +1027,8 @@ def oracle(case, obs):
 def nontrivial(case, obs):
     if "__hang__" in obs or obs["ctor"][0] != "ok":
         return False
+    if _is_session(case):
+        return any(r[0] == "ok" for r in obs["res"]) and len(case["calls"]) > len(case["texts"])
     k = kind(case)
     return ("prefix=1" in k or "empty=1" in k) and any(r[0] == "ok" for r in obs["res"])
 
@@ -1005,6 +1043,9 @@ def outcome(case, obs):
 
 
 def shrink_candidates(case):
+    if _is_session(case):
+        yield from _shrink_session(case)
+        return
     g = case["g"]
     # fewer inputs
     if len(case["inputs"]) > 1:
